@@ -1,6 +1,6 @@
 // property=C18 group=supervisor harness=c18_exec_argv_unicode
-// check: C18: session option not honoured
-// at src/c18.rs:71 in c18::check_wrappers
+// check: C18: process-group option not honoured
+// at src/c18.rs:72 in c18::check_wrappers
 // replay: ./check C18 --replay replays/C18/c18_exec_argv_unicode.89445e6706.rs
 #[test]
 fn kani_concrete_playback_c18_exec_argv_unicode_10425570121285408351() {
